@@ -133,6 +133,243 @@ theorem geo_polygon_roundtrip (o : Orient) (p : GPoly) (hne : p.ext ≠ [])
   simp only [GPoly.new, List.map_nil, List.nil_append, closeLS_of_closed e' (upToRev_closed he' hce),
     map_closeLS_of_closed ints' hci']
 
+/-! ### geo → shape → geo for points and lines: "non-empty components" come back identically
+(as the corresponding multi-geometry) -/
+
+theorem map_map_toXY (ls : List (List Pt)) (h : ∀ l ∈ ls, ∀ p ∈ l, IsXY p) : ls.map (List.map toXY) = ls := by
+  induction ls with
+  | nil => rfl
+  | cons a as ih =>
+    simp only [List.map_cons, map_toXY_of_isXY a (h a List.mem_cons_self),
+      ih (fun l hl => h l (List.mem_cons_of_mem _ hl))]
+
+/-- a geo-types `Point` comes back as the same point -/
+theorem geo_point_roundtrip (o : Orient) (p : Pt) (h : IsXY p) :
+    ∃ s, geomToShape o (.point p) = .ok s ∧ shapeToGeom s = .ok (.point p) := by
+  refine ⟨.point .xy (toXY p), rfl, ?_⟩
+  simp [shapeToGeom, toXY_of_isXY p h]
+
+/-- a non-empty `MultiPoint` comes back with the same points in the same order -/
+theorem geo_multipoint_roundtrip (o : Orient) (pts : List Pt) (hne : pts ≠ []) (h : ∀ p ∈ pts, IsXY p) :
+    ∃ s, geomToShape o (.multiPoint pts) = .ok s ∧ shapeToGeom s = .ok (.multiPoint pts) := by
+  cases pts with
+  | nil => exact absurd rfl hne
+  | cons a as =>
+    have hm : (a :: as).map toXY = a :: as := map_toXY_of_isXY _ h
+    refine ⟨.multipoint .xy (BBox.growFromPoints .xy ⟨a, a⟩ as) (a :: as), ?_, ?_⟩
+    · simp only [geomToShape, hm, Shape.mkMultipoint, BBox.fromPoints, Option.map_some, optShape]
+    · simp only [shapeToGeom, hm]
+
+/-- a `MultiLineString` whose lines have at least two points comes back with the same lines, the same
+points, in the same order -/
+theorem geo_multilinestring_roundtrip (o : Orient) (ls : List (List Pt)) (hne : ls ≠ [])
+    (h2 : ∀ l ∈ ls, 2 ≤ l.length) (h : ∀ l ∈ ls, ∀ p ∈ l, IsXY p) :
+    ∃ s, geomToShape o (.multiLineString ls) = .ok s ∧ shapeToGeom s = .ok (.multiLineString ls) := by
+  have hm : ls.map (List.map toXY) = ls := map_map_toXY ls h
+  have hany : (ls.any fun p => decide (p.length < 2)) = false := by
+    rw [List.any_eq_false]
+    intro l hl
+    have := h2 l hl
+    simp only [decide_eq_true_eq]
+    omega
+  -- the first line is not empty, so the box exists
+  obtain ⟨l0, rest, rfl⟩ : ∃ a b, ls = a :: b := by
+    cases ls with
+    | nil => exact absurd rfl hne
+    | cons a b => exact ⟨a, b, rfl⟩
+  obtain ⟨q, qs, rfl⟩ : ∃ q qs, l0 = q :: qs := by
+    have := h2 l0 List.mem_cons_self
+    cases l0 with
+    | nil => simp at this
+    | cons q qs => exact ⟨q, qs, rfl⟩
+  refine ⟨.polyline .xy (rest.foldl (BBox.growFromPoints .xy) (BBox.growFromPoints .xy ⟨q, q⟩ qs)) ((q :: qs) :: rest), ?_, ?_⟩
+  · simp only [geomToShape, hm, Shape.mkPolylineParts, hany, Bool.false_eq_true, if_false, BBox.fromParts, BBox.fromPoints,
+      Option.map_some, optShape]
+  · simp only [shapeToGeom, hm]
+
+/-- a `LineString` with at least two points comes back as the one-line `MultiLineString` -/
+theorem geo_linestring_roundtrip (o : Orient) (l : List Pt) (h2 : 2 ≤ l.length) (h : ∀ p ∈ l, IsXY p) :
+    ∃ s, geomToShape o (.lineString l) = .ok s ∧ shapeToGeom s = .ok (.multiLineString [l]) := by
+  have hm : l.map toXY = l := map_toXY_of_isXY l h
+  obtain ⟨q, qs, rfl⟩ : ∃ q qs, l = q :: qs := by
+    cases l with
+    | nil => simp at h2
+    | cons q qs => exact ⟨q, qs, rfl⟩
+  refine ⟨.polyline .xy (BBox.growFromPoints .xy ⟨q, q⟩ qs) [q :: qs], ?_, ?_⟩
+  · simp only [geomToShape, hm, Shape.mkPolyline, BBox.fromPoints, Option.map_some, optShape]
+    rw [if_neg (by omega)]
+  · simp only [shapeToGeom, List.map_cons, List.map_nil, hm]
+
+/-! ### geo → shape → geo for multi-polygons -/
+
+/-- a geo polygon as the conversions see it: 2-D coordinates, closed rings, a non-empty exterior -/
+structure GoodPoly (p : GPoly) : Prop where
+  ne : p.ext ≠ []
+  xe : ∀ q ∈ p.ext, IsXY q
+  xi : ∀ i ∈ p.ints, ∀ q ∈ i, IsXY q
+  ce : isClosed .xy p.ext = true
+  ci : ∀ i ∈ p.ints, isClosed .xy i = true
+
+def PolyUpToRev (a b : GPoly) : Prop := UpToRev a.ext b.ext ∧ RingsUpToRev a.ints b.ints
+
+def PolysUpToRev : List GPoly → List GPoly → Prop
+  | [], [] => True
+  | a :: as, b :: bs => PolyUpToRev a b ∧ PolysUpToRev as bs
+  | _, _ => False
+
+theorem upToRev_trans {a b c : List Pt} (h1 : UpToRev a b) (h2 : UpToRev b c) : UpToRev a c := by
+  rcases h1 with rfl | rfl <;> rcases h2 with rfl | rfl
+  · exact Or.inl rfl
+  · exact Or.inr rfl
+  · exact Or.inr rfl
+  · exact Or.inl (by simp)
+
+theorem ringsUpToRev_trans : ∀ {a b c : List (List Pt)}, RingsUpToRev a b → RingsUpToRev b c → RingsUpToRev a c
+  | [], [], [], _, _ => trivial
+  | _ :: _, _ :: _, _ :: _, ⟨h1, t1⟩, ⟨h2, t2⟩ => ⟨upToRev_trans h1 h2, ringsUpToRev_trans t1 t2⟩
+  | [], [], _ :: _, _, h => h.elim
+  | [], _ :: _, _, h, _ => h.elim
+  | _ :: _, [], _, h, _ => h.elim
+  | _ :: _, _ :: _, [], _, h => h.elim
+
+theorem polysUpToRev_trans : ∀ {a b c : List GPoly}, PolysUpToRev a b → PolysUpToRev b c → PolysUpToRev a c
+  | [], [], [], _, _ => trivial
+  | _ :: _, _ :: _, _ :: _, ⟨⟨e1, i1⟩, t1⟩, ⟨⟨e2, i2⟩, t2⟩ =>
+    ⟨⟨upToRev_trans e1 e2, ringsUpToRev_trans i1 i2⟩, polysUpToRev_trans t1 t2⟩
+  | [], [], _ :: _, _, h => h.elim
+  | [], _ :: _, _, h, _ => h.elim
+  | _ :: _, [], _, h, _ => h.elim
+  | _ :: _, _ :: _, [], _, h => h.elim
+
+/-- the rings of a polygon as a flat role list -/
+def flatRings (p : GPoly) : List (Role × List Pt) := (Role.outer, p.ext) :: p.ints.map fun i => (Role.inner, i)
+
+/-- `close_and_reorder` over the rings of a good polygon: the rings of a good polygon again, each
+ring kept or reversed -/
+theorem poly_rings_reordered (o : Orient) (p : GPoly) (hg : GoodPoly p) :
+    ∃ p', (flatRings p).map (closeAndReorder o .xy) = flatRings p' ∧ PolyUpToRev p' p ∧ GoodPoly p' := by
+  obtain ⟨ints', hintsdef, hru, hxi', hci'⟩ := inner_rings_reordered o p.ints hg.xi hg.ci
+  have he' := (closeAndReorder_closed_ring o .outer p.ext hg.ce).2
+  refine ⟨⟨(closeAndReorder o .xy (Role.outer, p.ext)).2, ints'⟩, ?_, ⟨he', hru⟩,
+    ⟨upToRev_ne_nil he' hg.ne, upToRev_isXY he' hg.xe, hxi', upToRev_closed he' hg.ce, hci'⟩⟩
+  simp only [flatRings, List.map_cons, List.map_map]
+  rw [← car_eta o .outer p.ext, ← hintsdef]
+  rfl
+
+theorem polys_rings_reordered (o : Orient) (ps : List GPoly) (hg : ∀ p ∈ ps, GoodPoly p) :
+    ∃ ps', (ps.flatMap flatRings).map (closeAndReorder o .xy) = ps'.flatMap flatRings ∧ PolysUpToRev ps' ps ∧
+      (∀ p ∈ ps', GoodPoly p) := by
+  induction ps with
+  | nil => exact ⟨[], rfl, trivial, fun _ h => absurd h (by simp)⟩
+  | cons p ps ih =>
+    obtain ⟨p', h1, h2, h3⟩ := poly_rings_reordered o p (hg p List.mem_cons_self)
+    obtain ⟨ps', t1, t2, t3⟩ := ih (fun q hq => hg q (List.mem_cons_of_mem _ hq))
+    refine ⟨p' :: ps', ?_, ⟨h2, t2⟩, ?_⟩
+    · simp only [List.flatMap_cons, List.map_append, h1, t1]
+    · intro q hq
+      rcases List.mem_cons.mp hq with rfl | hq
+      · exact h3
+      · exact t3 q hq
+
+/-- holes attach to the polygon opened last, whatever follows -/
+theorem groupRings_inners (inners : List (List Pt)) (rest : List (Role × List Pt)) (last : GPoly) (acc : List GPoly) :
+    groupRings ((inners.map fun i => (Role.inner, i)) ++ rest) (some last) acc =
+      groupRings rest (some { last with ints := last.ints ++ inners.map closeLS }) acc := by
+  induction inners generalizing last with
+  | nil => simp
+  | cons i is ih =>
+    simp only [List.map_cons, List.cons_append, groupRings]
+    rw [ih]
+    simp [GPoly.pushInterior, List.append_assoc]
+
+def normPoly (p : GPoly) : GPoly := ⟨closeLS p.ext, p.ints.map closeLS⟩
+
+theorem groupRings_polys (qs : List GPoly) (last : Option GPoly) (acc : List GPoly) :
+    groupRings (qs.flatMap flatRings) last acc = acc ++ last.toList ++ qs.map normPoly := by
+  induction qs generalizing last acc with
+  | nil => cases last <;> simp [groupRings]
+  | cons q qs ih =>
+    simp only [List.flatMap_cons, flatRings, List.cons_append, groupRings]
+    rw [groupRings_inners, ih]
+    cases last <;> simp [GPoly.new, normPoly, List.append_assoc]
+
+theorem normPoly_good (p : GPoly) (hg : GoodPoly p) : normPoly p = p := by
+  cases p with
+  | mk e is =>
+    simp only [normPoly, closeLS_of_closed e hg.ce, map_closeLS_of_closed is hg.ci]
+
+theorem flatRings_toXY (p : GPoly) (hg : GoodPoly p) :
+    (flatRings p).map (fun r => (r.1, r.2.map toXY)) = flatRings p := by
+  simp only [flatRings, List.map_cons, List.map_map, map_toXY_of_isXY _ hg.xe]
+  congr 1
+  apply List.map_congr_left
+  intro i hi
+  simp only [Function.comp, map_toXY_of_isXY i (hg.xi i hi)]
+
+/-- MAIN (geo → shape → geo, multi-polygons): a geo-types `MultiPolygon` of good polygons (at least
+one) converted to a shape and back is the same list of polygons: same count, same order, each with
+its own exterior and its own holes, every ring kept or reversed as a whole -/
+theorem geo_multipolygon_roundtrip (o : Orient) (ps : List GPoly) (hne : ps ≠ []) (hg : ∀ p ∈ ps, GoodPoly p) :
+    ∃ s ps', geomToShape o (.multiPolygon ps) = .ok s ∧ shapeToGeom s = .ok (.multiPolygon ps') ∧
+      PolysUpToRev ps' ps := by
+  -- `with_rings` per polygon
+  have hany : (ps.any fun p => p.ext.isEmpty) = false := by
+    rw [List.any_eq_false]
+    intro p hp
+    have := (hg p hp).ne
+    cases hpe : p.ext with
+    | nil => exact absurd hpe this
+    | cons a b => simp
+  have hfirst : ps.flatMap (fun p => ringsOfGPoly o ⟨p.ext.map toXY, p.ints.map (List.map toXY)⟩) =
+      (ps.flatMap flatRings).map (closeAndReorder o .xy) := by
+    clear hne hany
+    induction ps with
+    | nil => rfl
+    | cons p ps ih =>
+      have hp := hg p List.mem_cons_self
+      simp only [List.flatMap_cons, List.map_append, ih (fun q hq => hg q (List.mem_cons_of_mem _ hq))]
+      congr 1
+      simp only [ringsOfGPoly, flatRings, map_toXY_of_isXY _ hp.xe, map_map_toXY _ hp.xi]
+  obtain ⟨ps1, h1, u1, g1⟩ := polys_rings_reordered o ps hg
+  obtain ⟨ps2, h2, u2, g2⟩ := polys_rings_reordered o ps1 g1
+  -- the first ring is not empty: the box exists
+  obtain ⟨p0, prest, hps2⟩ : ∃ a b, ps2 = a :: b := by
+    cases ps2 with
+    | nil =>
+      cases ps1 with
+      | nil => cases ps with
+        | nil => exact absurd rfl hne
+        | cons _ _ => exact u1.elim
+      | cons _ _ => exact u2.elim
+    | cons a b => exact ⟨a, b, rfl⟩
+  obtain ⟨q, qs, hq⟩ : ∃ q qs, p0.ext = q :: qs := by
+    have := (g2 p0 (by rw [hps2]; exact List.mem_cons_self)).ne
+    cases he : p0.ext with
+    | nil => exact absurd he this
+    | cons q qs => exact ⟨q, qs, rfl⟩
+  have hshape : ∃ b, geomToShape o (.multiPolygon ps) = .ok (.polygon .xy b (ps2.flatMap flatRings)) := by
+    simp only [geomToShape, hany, Bool.false_eq_true, if_false, hfirst, h1, Shape.mkPolygonRings, h2]
+    rw [hps2]
+    simp only [List.flatMap_cons, flatRings, List.cons_append, List.map_cons, BBox.fromParts, hq, BBox.fromPoints,
+      Option.map_some, optShape]
+    exact ⟨_, rfl⟩
+  obtain ⟨b, hb⟩ := hshape
+  refine ⟨_, ps2, hb, ?_, polysUpToRev_trans u2 u1⟩
+  have hxy : (ps2.flatMap flatRings).map (fun r => (r.1, r.2.map toXY)) = ps2.flatMap flatRings := by
+    clear hps2 hb h2 u2
+    induction ps2 with
+    | nil => rfl
+    | cons p ps ih =>
+      simp only [List.flatMap_cons, List.map_append, flatRings_toXY p (g2 p List.mem_cons_self),
+        ih (fun q hq => g2 q (List.mem_cons_of_mem _ hq))]
+  simp only [shapeToGeom, hxy, groupRings_polys, Option.toList, List.append_nil, List.nil_append]
+  congr 2
+  clear hps2 hb h2 u2 hxy
+  induction ps2 with
+  | nil => rfl
+  | cons p ps ih =>
+    simp only [List.map_cons, normPoly_good p (g2 p List.mem_cons_self), ih (fun q hq => g2 q (List.mem_cons_of_mem _ hq))]
+
 /-- non-vacuity: a closed triangle of 2-D points -/
 example : isClosed .xy [⟨F64.zero, F64.zero, F64.zero, F64.noData⟩, ⟨F64.zero, F64.zero, F64.zero, F64.noData⟩] = true := by decide
 
